@@ -111,6 +111,7 @@ type world struct {
 	enc1     []byte // dag-cbor encoding of n1 (shared, read-only)
 	encP     []byte // dag-json encoding of the bound struct's representation
 	profile  int
+	byt      datamodel.Node
 	backend  string
 	cleanup  func()
 }
@@ -231,7 +232,8 @@ func buildWorld(t *sim.Tape) *world {
 	}
 	w.lp = cidlink.LinkPrototype{Prefix: gen.LinkFromBin(cids[0]).(cidlink.Link).Prefix()}
 	w.lp.Codec = 0x71
-	w.cfg = &traversal.Config{LinkSystem: w.lsys, LinkVisitOnlyOnce: false}
+	w.cfg = &traversal.Config{LinkSystem: w.lsys, LinkVisitOnlyOnce: t.Bool("cfg.visitonce")}
+	w.byt = basicnode.NewBytes([]byte("shared plain bytes node, long enough for subsets"))
 	if w.profile == 0 {
 		w.cfg.Ctx = ctxBackground
 		w.cfg.LinkTargetNodePrototypeChooser = func(datamodel.Link, linking.LinkContext) (datamodel.NodePrototype, error) {
@@ -252,11 +254,11 @@ func avHash(n datamodel.Node) string {
 	return fmt.Sprintf("%x", v.Hash())
 }
 
-const nOps = 30
+const nOps = 33
 
 var opNames = []string{"read-basicnode", "read-bindnode-type", "read-bindnode-repr", "deepequal", "copy", "encode-dagcbor", "encode-dagjson", "encode-bindnode-repr",
 	"computelink", "load", "loadraw", "walkadv", "walkmatching", "get-path", "build-from-shared-prototype", "wrap-with-shared-type", "wrap-inferred", "registry-lookup",
-	"print", "read-gendemo", "build-gendemo", "compile-selector", "typesystem-read", "prototype-inferred", "encode-to-failing-writer", "encode-after-failed-encode", "decode-dagcbor", "decode-dagjson-into-shared-prototype", "focused-transform-of-shared-node", "walk-transform-of-shared-node"}
+	"print", "read-gendemo", "build-gendemo", "compile-selector", "typesystem-read", "prototype-inferred", "encode-to-failing-writer", "encode-after-failed-encode", "decode-dagcbor", "decode-dagjson-into-shared-prototype", "focused-transform-of-shared-node", "walk-transform-of-shared-node", "loadplusraw", "fill", "walk-stream-bytes-subset"}
 
 // doOp performs one read-only operation on the shared world and returns a digest of its result.
 func (w *world) doOp(op, arg int) string {
@@ -430,6 +432,37 @@ func (w *world) doOp(op, arg int) string {
 			return "ERR:" + err.Error()
 		}
 		return avHash(res) + avHash(w.n2)
+	case 30:
+		if len(w.blockLnk) == 0 {
+			return "none"
+		}
+		n, b, err := w.lsys.LoadPlusRaw(linking.LinkContext{}, w.blockLnk[arg%len(w.blockLnk)], basicnode.Prototype.Any)
+		if err != nil {
+			return "ERR:" + err.Error()
+		}
+		return avHash(n) + fmt.Sprintf(" %x", sim.HashString(string(b)))
+	case 31:
+		if len(w.blockLnk) == 0 {
+			return "none"
+		}
+		nb := basicnode.Prototype.Any.NewBuilder()
+		if err := w.lsys.Fill(linking.LinkContext{}, w.blockLnk[arg%len(w.blockLnk)], nb); err != nil {
+			return "ERR:" + err.Error()
+		}
+		return avHash(nb.Build())
+	case 32:
+		// a subset match over the shared plain bytes node, read completely
+		ssb := builder.NewSelectorSpecBuilder(basicnode.Prototype.Any)
+		sel, err := ssb.MatcherSubset(int64(arg%3), int64(4+arg)).Selector()
+		if err != nil {
+			return "ERR:" + err.Error()
+		}
+		out := ""
+		err = traversal.Progress{Cfg: w.cfg}.WalkMatching(w.byt, sel, func(_ traversal.Progress, n datamodel.Node) error {
+			out += avHash(n)
+			return nil
+		})
+		return fmt.Sprint(out, err)
 	case 24, 25:
 		// encode a shared map-bearing node into a writer that fails at its arg-th write, then (25) encode again properly
 		fw := &failingWriter{at: arg}
